@@ -18,10 +18,11 @@ CONF = {
     'assumptions': ['PARTIAL: real time is not modelled (the 5 ms sleeps after timeout/temporary errors are a plain loop-back to the ctx check)',
                     'PARTIAL: the Go scheduler and memory model are not modelled: goroutines are interleaved at the granularity ctx check / NextPacket / select / receive; data races are out of scope',
                     'buffered channel (FIFO, close delivers buffered items first), select (any ready case) and context cancellation as modelled',
-                    'decoding is abstract: a decoder is any function saying whether it marks the bytes truncated; Lazy and Pool decode options are not modelled (eager copy/NoCopy only)',
+                    'decoding is abstract: a decoder is any function saying whether it marks the bytes truncated; the Lazy and Pool decode options are exercised by the harness (decode forced at delivery) but not modelled: the model claims the observables do not depend on them',
                     'the scripted data sources of the harness are the environment: a plain source returns a fresh array per read, the zero-copy source reuses one buffer (array 0)'],
     'trusted_base': ['model: coq/Model/C16Model.v is a hand transcription of packet.go:786-809,918-958,963-994,1024-1035 (repaired tree)',
                      'the error-feature table `feat` (errors.As net.Error/Timeout, errors.Is sentinels, "use of closed file") for the 16 scripted error values, validated by the correspondence'],
+    'false_alarms': ['first run: oracle clause C16:cancel counted reads entered between the harness deciding to cancel and cancel() returning (free-running fcan cases); machinery corrected (flag set after cancel() returns), not a defect'],
     'explanation': ('C16_pull, C16_chan (+progress), C16_cancel, C16_immutable(_chan), C16_guard are proved for all histories, all event '
                     'lists (interleavings, consumer speeds, select choices, cancellation points) by invariants over the transition '
                     'system; C16_guard_refuted keeps the witness for the constructor as it was (zeroCopy never set, fixed in the '
